@@ -276,6 +276,11 @@ def check(ctx):
     # the block summary of the law table (orig_* = the caller's pre-desugaring values) is what _create records and what the combinators read
     from . import C23
     C23.rule_kind(ctx, R="C24.summary")
+    # the laws equate what reaches _create; the two sides then denote the same sequences only if _create derives trial counts and
+    # crossing weights from those arguments in one way (mode handling included): C16's clauses, under their own rule names
+    if not ctx.is_control or getattr(ctx, "nested_ok", False):
+        from ..report import include
+        include(ctx, "C16")
     mod = sys.modules[__name__]
     control(ctx, mod, "Merge takes weights from the sustain counts",
             lambda s: variants.in_function(s, X, "Merge.__init__", "for w in b.crossing_weights:", "for w in b.crossing_sustain_counts:"), "C24.law")
